@@ -151,6 +151,8 @@ def Response.parseLoop (cfg : RespCfg) : Nat → RespState → Bytes → Nat →
           .ok { internal := .completeWhole, st := { s with body := s.body ++ rem.take needed, trailer := s.trailer ++ rem.drop needed }, consumed := rem.length }
         else .ok { internal := .incomplete, st := { s with body := s.body ++ rem }, consumed := rem.length }
       | .headers => do
+        -- response.rs: a dangling CR is held back from the header parser (current tree)
+        let rem := if cfg.tree.repaired then stripDanglingCr rem else rem
         let (hs, status, consumed) ← liftH Cat.Headers (Headers.parse cfg.hl s.headers rem)
         let s := { s with headers := hs }
         match status with
